@@ -149,8 +149,19 @@ pub fn text_scalars(t: &[Unit]) -> Vec<char> {
         .collect()
 }
 
+/// Tiny mode (Miri, where every interpreted instruction is expensive): only
+/// short streams and small sinks are generated.
+static TINY: std::sync::atomic::AtomicBool = std::sync::atomic::AtomicBool::new(cfg!(miri));
+pub fn set_tiny(on: bool) {
+    TINY.store(on, std::sync::atomic::Ordering::Relaxed);
+}
+pub fn tiny() -> bool {
+    TINY.load(std::sync::atomic::Ordering::Relaxed)
+}
+
 pub fn draw_text_cfg(rng: &mut Rng, long: bool, utf16: bool) -> TextCfg {
-    let len = if long { rng.range(40, 700) } else { rng.range(0, 24) };
+    let long = long && !tiny();
+    let len = if long { rng.range(40, 700) } else if tiny() { rng.range(0, 8) } else { rng.range(0, 24) };
     TextCfg {
         len,
         sweep_base: if rng.chance(1, 3) { Some((rng.below(0x110000 / 48) * 48) as u32) } else { None },
@@ -274,6 +285,7 @@ pub fn encode_well_formed(enc: &'static Encoding, text: &[char]) -> Vec<u8> {
 pub fn gen_dec_stream(rng: &mut Rng, enc: &'static Encoding, long: bool, bom_bias: bool) -> DecStream {
     let fam = family(enc);
     let mut st = DecStream::default();
+    let long = long && !tiny();
     let strat = if long { rng.weighted(&[2, 1, 0, 4]) } else { rng.weighted(&[4, 4, 1, 0]) };
     let mut bytes: Vec<u8> = match strat {
         0 => {
@@ -286,7 +298,7 @@ pub fn gen_dec_stream(rng: &mut Rng, enc: &'static Encoding, long: bool, bom_bia
         1 => {
             // (b) edge alphabet
             st.strategy = "edge-alphabet";
-            let n = if long { rng.range(40, 400) } else { rng.range(0, 20) };
+            let n = if long { rng.range(40, 400) } else if tiny() { rng.range(0, 10) } else { rng.range(0, 20) };
             let alpha = edge_alphabet(fam);
             (0..n)
                 .map(|_| match rng.below(20) {
